@@ -44,7 +44,7 @@ case "$ID" in
   C09|C10|C11) build vcheck-race -race || exit 2 ;;
 esac
 case "$ID" in
-  C05|C16|C20) (cd /repo && timeout -s KILL 1200 go build -o "$BIN/origami" .) || { echo "INFRA: origami build failed" >&2; exit 2; } ;;
+  C05|C16|C18|C20) (cd /repo && timeout -s KILL 1200 go build -o "$BIN/origami" .) || { echo "INFRA: origami build failed" >&2; exit 2; } ;;
 esac
 ARGS=(-prop "$ID" -tier "$TIER" -verif "$VERIF")
 [ -n "$REPLAY" ] && ARGS+=(-replay "$REPLAY")
